@@ -278,6 +278,7 @@ func checkC05(p *Prog, res *Result, tier string) {
 	res.rule("C05-R4", "non-blocking sends on event channels exist only in the hub fan-out", 1)
 	res.rule("C05-R5", "one goroutine each for sequencer and hub; only the sequencer sends on the broadcast channel", 3)
 	res.rule("C05-R6", "the per-watch forwarder closes its output channel on every return", 1)
+	res.rule("C05-R11", "a delete hands the previous value and revision it read to the event sink on every path after the commit, whatever the commit returned: the DELETE event of a write with unknown outcome (delivered after the repair) still names what was deleted", 2)
 	res.rule("C05-R10", "a forwarder start guarded by a comparison of the requested with the committed revision uses the strict form (requested > committed)", 1)
 	res.rule("C05-R9", "a slice handed over a channel (a broadcast batch, a streamed response) is not written by the sender afterwards: no reuse of a once-allocated buffer, no reset of a field buffer by re-slicing", 2)
 	res.rule("C05-R8", "event batches are shared between subscribers (and with the cache): no function of pkg/backend appends onto a re-slice of, or stores into, an event slice it received as a parameter or from a channel", 3)
@@ -431,6 +432,9 @@ func checkC05(p *Prog, res *Result, tier string) {
 			}
 		}
 	}
+
+	// R11: what the delete read travels with the event also when the commit's outcome is unknown
+	checkDeletePayload(p, r, res, "C05-R11")
 
 	// ---- R2 ----
 	checkCacheBeforeBroadcast(p, r, w, res)
@@ -983,5 +987,180 @@ func checkHandOffAliasing(p *Prog, res *Result, rule string, pkgs ...string) {
 	}
 	if nSends == 0 {
 		res.und(rule, "slices handed over channels", "-", "no send of a slice found")
+	}
+}
+
+// checkDeletePayload: (a) in the function that commits the deletion-marker batch, every return reachable after the
+// commit returns a previous key-value built from the point read that also supplied the expected index value - not an
+// empty one on the error path; (b) the entry point hands fields of that result to the event sink.
+func checkDeletePayload(p *Prog, r *Roles, res *Result, rule string) {
+	ts := p.tombstone()
+	bp := p.ssaPkg("pkg/backend")
+	n := 0
+	for _, vb := range p.versionedBatches() {
+		f := vb.b.Fn
+		if f.Pkg != bp || vb.cond == nil || !ts.is(p.ctxValue(vb.put.Val, vb.ctx)) || len(vb.b.Commits) != 1 {
+			continue
+		}
+		n++
+		// the read(s) the expected index value comes from
+		readCalls := map[*ssa.Call]bool{}
+		derivesFromCallArgs(p, vb.cond.Old, func(v ssa.Value) bool {
+			if ex, ok := v.(*ssa.Extract); ok {
+				if c, ok := ex.Tuple.(*ssa.Call); ok && c.Parent() == f {
+					readCalls[c] = true
+				}
+			}
+			return false
+		})
+		fromRead := func(v ssa.Value) bool {
+			return derivesFromCallArgs(p, v, func(x ssa.Value) bool {
+				if ex, ok := x.(*ssa.Extract); ok {
+					if c, ok := ex.Tuple.(*ssa.Call); ok && readCalls[c] {
+						return true
+					}
+				}
+				return false
+			})
+		}
+		construct := funcName(f) + ": previous key-value returned after the commit is the one that was read"
+		commit := vb.b.Commits[0].(ssa.Instruction)
+		cp := posOf(commit)
+		var rets []*ssa.Return
+		searchFrom(cp.b, cp.i+1, searchOpts{bad: func(i ssa.Instruction) bool {
+			if rt, ok := i.(*ssa.Return); ok {
+				rets = append(rets, rt)
+			}
+			return false
+		}})
+		bad := ""
+		structIdx := -1
+		for i := 0; i < f.Signature.Results().Len(); i++ {
+			if _, ok := f.Signature.Results().At(i).Type().Underlying().(*types.Struct); ok {
+				structIdx = i
+			}
+		}
+		if structIdx < 0 || len(rets) == 0 || len(readCalls) == 0 {
+			res.und(rule, construct, p.pos(f.Pos()), "shape not recognised (no struct result, no return after the commit, or no read feeding the expected value)")
+			continue
+		}
+		for _, rt := range rets {
+			var vals []ssa.Value
+			var expand func(v ssa.Value, d int)
+			expand = func(v ssa.Value, d int) {
+				if ph, isPhi := v.(*ssa.Phi); isPhi && d < 6 {
+					for _, e := range ph.Edges {
+						expand(e, d+1)
+					}
+					return
+				}
+				vals = append(vals, v)
+			}
+			expand(rt.Results[structIdx], 0)
+			for _, v := range vals {
+				ok := false
+				if ld, isLd := v.(*ssa.UnOp); isLd && ld.Op == token.MUL {
+					if cell, isCell := ld.X.(*ssa.Alloc); isCell {
+						// (1) the cell holds fields copied from the read when the commit runs ..
+						isCellAddr := func(a ssa.Value) bool {
+							if a == ssa.Value(cell) {
+								return true
+							}
+							fa, isFA := a.(*ssa.FieldAddr)
+							return isFA && fa.X == ssa.Value(cell)
+						}
+						for _, ref := range *cell.Referrers() {
+							if fa, isFA := ref.(*ssa.FieldAddr); isFA {
+								for _, r2 := range *fa.Referrers() {
+									if st, isSt := r2.(*ssa.Store); isSt && st.Addr == ssa.Value(fa) && fromRead(st.Val) && instrDominates(st, commit) {
+										ok = true
+									}
+								}
+							}
+						}
+						// (2) .. and is not written again between the commit and this return
+						if ok {
+							w, _ := searchFrom(cp.b, cp.i+1, searchOpts{
+								stop: func(i ssa.Instruction) bool { return i == ssa.Instruction(rt) },
+								bad: func(i ssa.Instruction) bool {
+									st, isSt := i.(*ssa.Store)
+									if !isSt || !isCellAddr(st.Addr) || !reaches(st, rt) {
+										return false
+									}
+									// `return .., old, ..` with a named result copies the cell onto itself
+									if ld2, isLd2 := st.Val.(*ssa.UnOp); isLd2 && ld2.Op == token.MUL && ld2.X == ssa.Value(cell) && st.Addr == ssa.Value(cell) {
+										return false
+									}
+									return true
+								},
+							})
+							if w != nil {
+								ok = false
+							}
+						}
+					}
+				}
+				if !ok {
+					bad = p.pos(rt.Pos())
+				}
+			}
+		}
+		if bad == "" {
+			res.ok(rule, construct, p.pos(commit.Pos()), fmt.Sprintf("%d return(s) after the commit, each returning the key-value built from the read", len(rets)))
+		} else {
+			res.bad(rule, construct, bad, "on a path after the commit the previous key-value that is returned is not the one that was read (an empty one on the error path): when the commit's outcome is unknown and the delete did land, the DELETE event produced by the repair carries no previous value and no previous revision")
+		}
+		// (b) the callers hand it to the sink
+		p.buildCallersLite()
+		for _, cs := range p.staticCallers[f] {
+			cc, ok := cs.(*ssa.Call)
+			if !ok {
+				continue
+			}
+			caller := cc.Parent()
+			construct2 := funcName(caller) + ": the event sink receives the previous value and revision the delete returned"
+			exs := extractsOf(cc)
+			if structIdx >= len(exs) || exs[structIdx] == nil {
+				res.bad(rule, construct2, p.pos(cc.Pos()), "the previous key-value returned by the delete is dropped")
+				continue
+			}
+			prev := exs[structIdx]
+			nFromPrev, found := 0, false
+			for _, c := range callsIn(caller) {
+				if c.Common().StaticCallee() != r.Sink {
+					continue
+				}
+				found = true
+				for _, a := range c.Common().Args {
+					if derivesFrom(p, a, func(x ssa.Value) bool {
+						if x == ssa.Value(prev) {
+							return true
+						}
+						// the result kept in a local struct variable
+						if cell, ok := x.(*ssa.Alloc); ok {
+							for _, ref := range *cell.Referrers() {
+								if st, ok := ref.(*ssa.Store); ok && st.Addr == ssa.Value(cell) && st.Val == ssa.Value(prev) {
+									return true
+								}
+							}
+						}
+						return false
+					}) {
+						nFromPrev++
+					}
+				}
+			}
+			switch {
+			case !found:
+				res.und(rule, construct2, p.pos(cc.Pos()), "no call of the event sink in the caller")
+			case nFromPrev >= 2:
+				res.ok(rule, construct2, p.pos(cc.Pos()), "value and previous revision are fields of the returned key-value")
+			default:
+				res.bad(rule, construct2, p.pos(cc.Pos()), "the event sink is not handed the previous value and previous revision that the delete returned")
+			}
+		}
+	}
+	if n == 0 {
+		res.und(rule, "delete batch", "-", "no batch writing the deletion marker found in pkg/backend")
 	}
 }
